@@ -1,5 +1,6 @@
 """C14 - strategy import validates, normalises, and both import paths agree."""
 import math
+from fractions import Fraction
 
 from ..common import b2f, f2b, close
 from ..gen import gen_tree, random_named, infosets_of
@@ -103,11 +104,11 @@ def oracle(t, named):
         rows = {}
         for info, acts in multi[pl + 1]:
             ws = [last.get((info, a), 0.0) for a in acts]
-            tot = sum(ws)
+            tot = sum(Fraction(w) for w in ws)        # exact: the property says weight / total
             if not (tot > 0):
                 viol.add("UninitializedInfoset")
             else:
-                rows[info] = {a: w / tot for a, w in zip(acts, ws) if w / tot > 0}
+                rows[info] = {a: float(Fraction(w) / tot) for a, w in zip(acts, ws) if w > 0 and float(Fraction(w) / tot) > 0}
         if set(sing) - seen_single:
             viol.add("UninitializedInfoset")
         result.append(rows)
@@ -140,7 +141,31 @@ def generate(rng, tier, n):
     return cases
 
 
+def corpus():
+    """dedicated probe of the known finding: finite weights whose total overflows binary64"""
+    t = {"p": 1, "i": 7, "a": [[1, {"t": f2b(1.0)}], [2, {"t": f2b(-1.0)}]]}
+    big = 2.0 ** 1023
+    cand = [[[7, [[1, f2b(big)], [2, f2b(big)]]]], []]
+    return [build(1000000, t, {"nodes": 3}, cand, ["overflow_total"])]
+
+
+def _overflows(cand):
+    for pl in cand:
+        for _, pairs in pl:
+            ws = [b2f(w) for _, w in pairs]
+            if all(math.isfinite(w) for w in ws) and math.isinf(sum(w for w in ws if w > 0)):
+                return True
+    return False
+
+
 def monitor(cb, impl):
+    hits = _monitor(cb, impl)
+    if hits and _overflows(cb.meta["cand"]):
+        return [(t, "f64-overflow-total") for t, _ in hits]
+    return hits
+
+
+def _monitor(cb, impl):
     hits = []
     if "ops" not in impl:
         return hits
